@@ -232,13 +232,24 @@ func (fr *FnRun) viewImage(st *State, s *SliceV) *Term {
 	st.viewImg[key] = b
 	w := int64(s.ViewW)
 	e := Var(ex.fresh("e!v"), SInt)
-	el := ex.readElem(st, data, s.ViewElem, e)
-	bs := fr.elemBytes(st, el, s.ViewElem)
-	var cs []*Term
-	for j := int64(0); j < w; j++ {
-		cs = append(cs, Eq(Select(b, Add(Mul(e, Int(w)), Int(j))), bs[j]))
+	if na, ok := data.(*NestedArr); ok && ex.sizeOf(na.T.Elem()) == 1 {
+		// elements are byte arrays: B[e*W+j] == A[e][j]
+		j := Var(ex.fresh("j!v"), SInt)
+		body := Eq(Select(b, Add(Mul(e, Int(w)), j)), fr.scalarByte(Select(Select(na.Data, e), j), na.T.Elem(), 1, 0))
+		st.assume(Forall([]*Term{e, j}, Implies(And(Le(Int(0), j), Lt(j, Int(w))), body), Select(Select(na.Data, e), j)))
+		st.assume(Forall([]*Term{e, j}, Implies(And(Le(Int(0), j), Lt(j, Int(w))), body), Select(b, Add(Mul(e, Int(w)), j))))
+	} else {
+		el := ex.readElem(st, data, s.ViewElem, e)
+		bs := fr.elemBytes(st, el, s.ViewElem)
+		var cs []*Term
+		for j := int64(0); j < w; j++ {
+			cs = append(cs, Eq(Select(b, Add(Mul(e, Int(w)), Int(j))), bs[j]))
+		}
+		st.assume(Forall([]*Term{e}, And(cs...), Select(b, Mul(e, Int(w)))))
+		for _, l := range arrLeaves(data) {
+			st.assume(Forall([]*Term{e}, And(cs...), Select(l, e)))
+		}
 	}
-	st.assume(Forall([]*Term{e}, And(cs...), Select(b, Mul(e, Int(w)))))
 	// typed content as a function of the image (inverse direction)
 	var sel []*Term
 	for j := int64(0); j < w; j++ {
@@ -255,9 +266,29 @@ func (fr *FnRun) viewByte(st *State, v *SliceV, i *Term) *Term {
 
 // viewCopyFact: dstArr[dstOff+k] == view[k] for 0 <= k < n.
 func (fr *FnRun) viewCopyFact(st *State, dstArr *Term, dstOff *Term, src *SliceV, n *Term) *Term {
+	ex := fr.ex
 	b := fr.viewImage(st, src)
-	k := Var(fr.ex.fresh("k!vc"), SInt)
-	return Forall([]*Term{k}, Implies(And(Le(Int(0), k), Lt(k, n)), Eq(Select(dstArr, Add(dstOff, k)), Select(b, Add(src.Off, k)))), Select(dstArr, Add(dstOff, k)))
+	k := Var(ex.fresh("k!vc"), SInt)
+	bytewise := Forall([]*Term{k}, Implies(And(Le(Int(0), k), Lt(k, n)), Eq(Select(dstArr, Add(dstOff, k)), Select(b, Add(src.Off, k)))), Select(dstArr, Add(dstOff, k)))
+	// element-wise form (aligned views only): dst[dstOff + W*e + j] == byte j of element e
+	data := fr.sliceData(st, src)
+	lv := arrLeaves(data)
+	if _, isNested := data.(*NestedArr); isNested || len(lv) == 0 || !(src.Off.IsInt() && src.Off.I.Sign() == 0) {
+		return bytewise
+	}
+	w := int64(src.ViewW)
+	e := Var(ex.fresh("e!vc"), SInt)
+	el := ex.readElem(st, data, src.ViewElem, e)
+	bs := fr.elemBytes(st, el, src.ViewElem)
+	var cs []*Term
+	for j := int64(0); j < w; j++ {
+		cs = append(cs, Eq(Select(dstArr, Add(dstOff, Add(Mul(e, Int(w)), Int(j)))), bs[j]))
+	}
+	out := []*Term{bytewise}
+	for _, l := range lv {
+		out = append(out, Forall([]*Term{e}, Implies(And(Le(Int(0), e), Le(Add(Mul(e, Int(w)), Int(w)), n)), And(cs...)), Select(l, e)))
+	}
+	return And(out...)
 }
 
 // havocView gives the viewed window new bytes: the typed elements whose bytes
@@ -284,7 +315,16 @@ func (fr *FnRun) havocView(st *State, s *SliceV) *Term {
 	fromB := fr.elemFromBytes(st, s.ViewElem, sel)
 	oldEl := ex.readElem(st, oldData, s.ViewElem, e)
 	pat := Select(nb, Mul(e, Int(w)))
-	st.assume(Forall([]*Term{e}, Implies(inWin, fr.valEq(st, newEl, fromB)), pat))
+	if na, ok := newData.(*NestedArr); ok && ex.sizeOf(na.T.Elem()) == 1 {
+		j := Var(ex.fresh("j!v"), SInt)
+		body := Eq(Select(Select(na.Data, e), j), fr.scalarFromBytes(na.T.Elem(), 1, []*Term{Select(nb, Add(Mul(e, Int(w)), j))}))
+		st.assume(Forall([]*Term{e, j}, Implies(And(inWin, Le(Int(0), j), Lt(j, Int(w))), body), Select(Select(na.Data, e), j)))
+	} else {
+		st.assume(Forall([]*Term{e}, Implies(inWin, fr.valEq(st, newEl, fromB)), pat))
+		for _, l := range arrLeaves(newData) {
+			st.assume(Forall([]*Term{e}, Implies(inWin, fr.valEq(st, newEl, fromB)), Select(l, e)))
+		}
+	}
 	st.assume(Forall([]*Term{e}, Implies(Not(inWin), fr.valEq(st, newEl, oldEl))))
 	// the image is consistent with the new typed content everywhere, and bytes outside the window are unchanged
 	bs := fr.elemBytes(st, newEl, s.ViewElem)
